@@ -147,6 +147,7 @@ var c04Muts = []mutSpec{
 	{kind: "outer-ech-empty", alerts: []int{alDecodeError, alIllegalParameter}},
 	{kind: "ech-empty-enc", alerts: []int{alIllegalParameter, alDecodeError, alDecryptError}},
 	{kind: "inner-ech-empty", alerts: []int{alDecodeError, alIllegalParameter}},
+	{kind: "inner-versions-remnant", alerts: []int{alDecodeError, alIllegalParameter}, noComp: true},
 	{kind: "inner-ech-type", alerts: []int{alIllegalParameter}},
 	{kind: "inner-ech-twice", alerts: []int{alIllegalParameter}},
 }
@@ -221,7 +222,7 @@ func genC04(seed uint64, idx int) *Plan {
 		if ms.kind == "outer-ech-empty" && (hasMut(p.Mutations, "outer-ech-type") != nil || hasMut(p.Mutations, "ech-ext-lie") != nil) {
 			continue
 		}
-		isB := ms.kind == "inner-ech-empty" || ms.kind == "inner-ech-type" || ms.kind == "inner-ech-twice" || ms.needRun || ms.needPad || ms.kind == "trunc-inner" || ms.kind == "inner-len-lie" || ms.kind == "inner-no-tls13" || ms.kind == "inner-no-ech" || ms.kind == "ext-remnant"
+		isB := ms.kind == "inner-versions-remnant" || ms.kind == "inner-ech-empty" || ms.kind == "inner-ech-type" || ms.kind == "inner-ech-twice" || ms.needRun || ms.needPad || ms.kind == "trunc-inner" || ms.kind == "inner-len-lie" || ms.kind == "inner-no-tls13" || ms.kind == "inner-no-ech" || ms.kind == "ext-remnant"
 		if isB && stageB {
 			continue // one deviation per inner hello, any number on the outer
 		}
